@@ -503,6 +503,33 @@ def oracle_case(case, obs, small=True):
         if st.startswith("srch"):
             if g is None:
                 g = graph_of_case(case)
+            if " then " in st:
+                # `srch .. then <op>`: first answer on the graph as built, second on the graph after <op> (or for the new target)
+                st1, op = st.split(" then ", 1)
+                if " THEN " not in text:
+                    return "step %d `%s` -> `%s`: expected two answers" % (si, st, text[:120])
+                first, second = text.split(" THEN ", 1)
+                msg = check_srch(g, st1, first, small)
+                if msg:
+                    return "step %d `%s`: first run -> `%s`: %s" % (si, st, first[:120], msg)
+                t_op = op.split()
+                st2 = st1
+                g2 = g
+                if t_op[0] == "retarget":
+                    toks = st1.split()
+                    toks[5] = t_op[1]
+                    st2 = " ".join(toks)
+                else:
+                    import mut_chan
+                    ref = mut_chan.RefGraph(case.cls)
+                    ref.keys = list(g.keys)
+                    ref.edges = list(g.edges)
+                    ref.apply(t_op)
+                    g2 = G(case.cls, g.keys, g.vals, ref.edges)
+                msg = check_srch(g2, st2, second, small)
+                if msg:
+                    return "step %d `%s`: second run of the same search object, after `%s` -> `%s`: %s" % (si, st, op, second[:120], msg)
+                continue
             if " REUSED-OBJECT-ANSWERS " in text:
                 # the same configured search object, run a second time, answered differently: decide both answers
                 first, second = text.split(" REUSED-OBJECT-ANSWERS ", 1)
@@ -603,6 +630,34 @@ def gen_cases(cls, rng, tier, algos, whats, level=1, n_small=3, m_small=3, nrand
             m = None if r < 0.3 else ("each",) if r < 0.6 else ("filt", rng.randint(0, 5), rng.randint(2, 5))
             st.append(srch(algo, what, root, tr, tg, m))
         cases.append(Case("%sR%s%d" % (prefix, cls, i), cls, st, dict(kind="random-graph", nodes=g.n, edges=len(g.edges))))
+    # one search object run twice with a change of the graph (or a new target) in between: hidden state of the object
+    # (buffers, visited sets, memoised answers) must not leak from the first run into the second
+    if nrandom:
+        for i in range(nrandom * 4):
+            g = random_graph(cls, rng, maxn=6, maxe=10)
+            algo = rng.choice(algos)
+            order = algo in ("pre", "post")
+            ws = [w for w in whats if w in (("nodes", "edges") if order else ("path",))]
+            if not ws:
+                continue
+            what = rng.choice(ws)
+            root = rng.randrange(g.n)
+            tr = rng.random() < 0.4 and cls == "D"
+            tg = None if order else (g.keys[rng.randrange(g.n)] if rng.random() < 0.85 else 777)
+            u, v = rng.randrange(g.n), rng.randrange(g.n)
+            r = rng.random()
+            if r < 0.45:
+                op = "con %d %d %d" % (u, v, 900 + i)
+            elif r < 0.7:
+                op = "dis %d %d" % (u, g.keys[v])
+            elif r < 0.8:
+                op = "iso %d" % u
+            elif r < 0.88 or order:
+                op = "try %d %d %d" % (u, v, 900 + i)
+            else:
+                op = "retarget %d" % g.keys[rng.randrange(g.n)]
+            st = g.steps() + [srch(algo, what, root, tr, tg, None) + " then " + op]
+            cases.append(Case("%sT%s%d" % (prefix, cls, i), cls, st, dict(kind="search-object-reused-after-change")))
     # large structured graphs: long chains, deep trees, wide fans, grids, rings with chords, dense random graphs
     if nrandom:
         for i in range(max(8, nrandom // 5)):
